@@ -1410,8 +1410,12 @@ func (e *Exec) sortedFormula(fr *Frame, st *State, s *Term, clo *Closure) *Term 
 	tag := fmt.Sprintf("sorted.%d", e.tm.SliceBase(s).id)
 	i, j := c.BoundVarNamed(tag+".i", "Int"), c.BoundVarNamed(tag+".j", "Int")
 	guard := c.And(c.Le(c.Int(0), i), c.Lt(i, j), c.Lt(j, e.tm.SliceLen(s)))
+	// a loop inside the comparison is cut: the outcome of the paths through it is arbitrary, so the order they would
+	// establish is simply not assumed (the solver may take the comparison to be false there)
 	e.pure++
+	e.absLoops++
 	less := e.callClosure(clo, []Val{{T: j}, {T: i}}, st, fr).T
+	e.absLoops--
 	e.pure--
 	return c.Forall([]*Term{i, j}, c.Implies(guard, c.Not(less)))
 }
